@@ -220,6 +220,36 @@ theorem trxStep_wf {live : Bool} {t t' : Trx} {a : TrxAct} (hw : WfTrx t) (h : t
     · injection h with h; subst h
       exact ⟨w1, w2, w3, w4, w5, w6, w7, w8, w9, w10, w11, w12, w13, w14, w15, w16⟩
     · simp at h
+  | cancel w =>
+    simp only [trxStep] at h
+    split at h
+    · rename_i hs
+      injection h with h; subst h
+      cases w with
+      | rtp =>
+        simp only [Trx.get] at hs
+        obtain ⟨c1, c2, c3⟩ := wfRun_cancel w1 hs
+        refine ⟨c1, w2, w3, ?_, ?_, w6, w7, w8, w9, w10, w11, w12, ?_, ?_, w15, w16⟩
+        · intro h'; simpa [Trx.set, Trx.get, c3] using w4 h'
+        · intro h'; simpa [Trx.set, Trx.get, c3] using w5 h'
+        · intro h'; exact ⟨c2, (w13 h').2⟩
+        · intro h'; exact ⟨c2, (w14 h').2⟩
+      | srtcp =>
+        simp only [Trx.get] at hs
+        obtain ⟨c1, c2, c3⟩ := wfRun_cancel w2 hs
+        refine ⟨w1, c1, w3, ?_, ?_, w6, w7, w8, w9, w10, w11, w12, ?_, ?_, w15, w16⟩
+        · intro h'; simpa [Trx.set, Trx.get, c3] using w4 h'
+        · intro h'; simpa [Trx.set, Trx.get, c3] using w5 h'
+        · intro h'; simpa [Trx.set, Trx.get, c3] using w13 h'
+        · intro h'; exact ⟨(w14 h').1, c2⟩
+      | rrtcp =>
+        simp only [Trx.get] at hs
+        obtain ⟨c1, c2, c3⟩ := wfRun_cancel w3 hs
+        refine ⟨w1, w2, c1, w4, w5, ?_, ?_, w8, w9, w10, ?_, w12, w13, w14, w15, w16⟩
+        · intro h'; simpa [Trx.set, Trx.get, c3] using w6 h'
+        · intro h'; simpa [Trx.set, Trx.get, c3] using w7 h'
+        · intro _; exact c2
+    · simp at h
 
 theorem tptStep_wf {live : Bool} {t t' : Tpt} {a : TptAct} (hw : WfTpt t) (h : tptStep live t a = some t')
     (hz : live = true → t.dtlsStop = 0 ∧ t.iceStop = 0) : WfTpt t' := by
@@ -294,13 +324,18 @@ theorem tptStep_wf {live : Bool} {t t' : Tpt} {a : TptAct} (hw : WfTpt t) (h : t
     · injection h with h; subst h
       exact ⟨w1, w2, by simp [Tpt.monQuiet], by simp [Tpt.monQuiet], by simp [Tpt.monQuiet], w6, w7⟩
     · simp at h
-  | discard =>
+  | nstep =>
     simp only [tptStep] at h
     split at h
     · rename_i hg
       simp [Tpt.unstarted] at hg
-      injection h with h; subst h
-      exact ⟨w1, w2, by simp, by simp, by simp [Tpt.monQuiet, hg.1.2], w6, w7⟩
+      have hmq : ∀ (x : Tpt), x.monitor = t.monitor → x.monQuiet = true := by
+        intro x hx; simp [Tpt.monQuiet, hx, hg.1.2]
+      repeat' split at h
+      all_goals (try (simp at h; done))
+      all_goals (injection h with h; subst h)
+      all_goals exact ⟨w1, w2, fun _ => Or.inl (hmq _ rfl), fun _ => Or.inl (hmq _ rfl),
+        fun hq => by simp [Tpt.monQuiet, hg.1.2] at hq, w6, w7⟩
     · simp at h
 
 /-! ## the global invariant -/
